@@ -9,7 +9,7 @@ PNET = 'pnet 0.33 accessors/constructors/checksum routines are assumed contracts
 CLAIMS = {
  'C01': dict(
    text='Verus proves, for every function under contract on the reply() path from masscanned::reply down to tcp::repl/udp::repl/icmp*::repl/arp::repl (bodies extracted verbatim), absence of panics: every index, slice, arithmetic operation, unwrap/expect and callee precondition (incl. pnet set_payload bounds and Debug-formatting obligations of log arguments, evaluated at every verbosity) and termination of every loop, for all frames <= 4096 bytes and all table states satisfying the representation invariant, which every function preserves. Ground: both automaton initialisers run to completion on the real binary.',
-   note='STAGED: proto::repl and the smack matcher are under contract; HTTP, SSH, STUN, DNS and Gh0st responders are under contract; RPC and SMB are still assumed contracts (trusted stubs, listed in the evidence). Loggers (console/logfmt) are represented by the MetaLogger shim. ' + PNET),
+   note='STAGED: proto::repl and the smack matcher are under contract; HTTP, SSH, STUN, DNS, Gh0st and RPC responders are under contract (two string-building RPC helpers assumed); SMB is still an assumed contract (trusted stub, listed in the evidence). Loggers (console/logfmt) are represented by the MetaLogger shim. ' + PNET),
  'C02': dict(
    text='Postconditions of layer_2::reply, get_authorized_eth_addr (loop invariant over the self-IP set), arp::repl, ipv4::repl, ipv6::repl, icmpv6::repl/nd_ns_repl: a reply exists only if dst MAC is in Auth(MAC,S), src IP not denied, EtherType/next protocol supported; with S configured the reply source IP and every advertised address is in S. Composed to the frame level in eth_reply_ok (masscanned::reply).',
    note=PNET + '; HashSet<IpAddr>/HashSet<MacAddr> obey the vstd key model (assumed)'),
@@ -49,6 +49,9 @@ CLAIMS = {
  'C15': dict(
    text='stun::repl is proved to answer iff the payload is at least 20 + declared length bytes long, class bits == Request and method == Binding (decoded per RFC 5389 figure 3, all twelve method bits), and then with exactly stun_response_spec: type 0x0101, length = 4 + attribute length, the request\'s 16 id bytes, one MAPPED-ADDRESS (family 1|2, observed source port and address). Attribute parsing (TryFrom, get_attributes loop) is proved total and in-bounds for every TLV layout; the change-port effect is proved equal to the TLV-walk predicate stun_change_port_req and applied exactly once (port + 1 mod 2^16).',
    note='to_be_bytes/byteorder::read_u128 inverse through the uninterpreted be_bytes16; u8->u8 try_into identity assumed (std reflexive From); identification of STUN payloads is the dispatcher\'s part (C10, with its known findings)'),
+ 'C16': dict(
+   text='rpc_parse (read_u32/read_string state machine) is proved panic-free for every byte sequence under the representation invariant rpc_state_wf (field in progress < 256^bytes read, counted strings only entered with a positive count), which makes value*256+byte and data_len-1 safe in debug and release arithmetic; get_nth_byte/push_u32 equal the big-endian byte specs; build_repl is proved to return xid ++ reply/accepted/null-verifier header and then, in the stated precedence, PROG_MISMATCH(2,4) for versions outside 2..4, SUCCESS for procedure 0, the portmapper body for program 100000, PROG_UNAVAIL otherwise, 4-byte aligned; repl_tcp prefixes a record mark with the last-fragment bit and a length equal to the bytes that follow; the two panic!("Wrong RPC version") are unreachable (callee precondition 2 <= version <= 4).',
+   note='build_repl_portmap and push_string_pad (String/format!/str matching) are ASSUMED contracts: the clauses "GETPORT/GETADDR/DUMP advertise exactly the contacted IP, port and netid" and XDR string padding are not verified; field decoding of rpc_parse is stated as an invariant, not yet as equality with the big-endian words of the stream'),
  'C18': dict(
    text='ssh_parse is proved (loop invariant, lexicographic termination measure for the re-read in state LF) to compute exactly the reference automaton ssh_run written from RFC 4253 4.2; ssh::repl answers iff that automaton ends in EOB and then with exactly "SSH-2.0-1\\r\\n". Lemmas over ssh_run: every string "SSH-" (digit|.)* "-" software [SP comment] CR LF (software without SP/CR, comment without CR) is accepted; strings without a CR LF pair or not starting "SSH-" are never accepted; run(a++b) = run(run(a), b). ghost::repl is proved to return "Gh0st" ++ le32(total length) ++ le32(1) ++ zlib([0]) with the declared total equal to the frame length.',
    note='gray zone left unconstrained (empty software, lone CR inside software/comment, which the code tolerates); that the leading bytes are SSH-2.0/SSH-1.99 is the dispatcher\'s part (C10); flate2 is an assumed contract (output inflates to the input; length bound); byte2str (log rendering) trusted'),
